@@ -99,6 +99,9 @@ def _rules():
         "identity": [
             lambda R, c, rid: shared.branch_identity(R, c, rid),
         ],
+        "weak-wire": [
+            lambda R, c, rid: shared.weak_link_flags(R, c, rid),
+        ],
         "flags": [
             lambda R, c, rid: preds.rule(R, c, rid, ["flags_check"]),
             lambda R, c, rid: preds.flag_table(R, c, rid),
@@ -108,7 +111,7 @@ def _rules():
 
 # property -> mechanisms it depends on *in addition to* the clauses its own module already runs
 DEPENDS = {
-    "C01": ["squash", "splice", "partial", "flags", "stash-deletes", "lookup", "content", "export", "liveness", "block-wire", "merge", "state-vector", "identity"],
+    "C01": ["squash", "splice", "partial", "flags", "stash-deletes", "lookup", "content", "export", "liveness", "block-wire", "merge", "state-vector", "identity", "weak-wire"],
     "C02": ["stash-deletes", "lookup", "export", "block-wire", "merge", "state-vector"],
     "C03": ["splice", "conflict", "lookup", "content", "map-api", "text-units"],
     "C04": ["splice", "dependency", "stash-deletes", "lookup", "content", "block-iter"],
@@ -116,7 +119,7 @@ DEPENDS = {
     "C06": ["dependency", "delete-set", "slice", "partial", "lookup", "content", "merge", "state-vector"],
     "C07": ["delete-set", "slice", "partial", "export", "liveness", "block-wire", "state-vector"],
     "C08": ["slice", "delete-set", "partial", "block-wire", "state-vector"],
-    "C09": ["slice", "partial", "content", "identity"],
+    "C09": ["slice", "partial", "content", "identity", "weak-wire"],
     "C12": ["splice", "squash", "lookup"],
     "C13": ["splice", "delete-set", "lookup", "content", "export", "liveness", "state-vector"],
     "C14": ["splice", "liveness", "lookup", "redone", "block-iter", "identity"],
@@ -124,7 +127,7 @@ DEPENDS = {
     "C16": ["delete-set"],
     "C17": ["flags", "content", "map-api", "block-iter"],
     "C18": ["dependency", "stash-deletes", "partial", "export", "block-wire", "merge", "state-vector"],
-    "C20": ["dependency", "splice", "squash", "lookup", "identity"],
+    "C20": ["dependency", "splice", "squash", "lookup", "identity", "weak-wire"],
 }
 
 
